@@ -1,3 +1,5 @@
+//go:build llir
+
 package main
 
 // Parser for the subset of LLVM 14 textual IR that clang -target bpf -O1 produces for the eBPF programs under test.
@@ -16,7 +18,7 @@ type LLTypeKind int
 const (
 	LLVoid LLTypeKind = iota
 	LLInt
-	LLPtr
+	LLPtrT
 	LLArray
 	LLStruct
 	LLFuncT
@@ -27,7 +29,7 @@ const (
 type LLType struct {
 	Kind   LLTypeKind
 	Bits   int     // LLInt
-	Elem   *LLType // LLPtr, LLArray
+	Elem   *LLType // LLPtrT, LLArray
 	N      int     // LLArray
 	Fields []*LLType
 	Packed bool
@@ -49,7 +51,7 @@ func (t *LLType) String() string {
 		return "void"
 	case LLInt:
 		return fmt.Sprintf("i%d", t.Bits)
-	case LLPtr:
+	case LLPtrT:
 		return t.Elem.String() + "*"
 	case LLArray:
 		return fmt.Sprintf("[%d x %s]", t.N, t.Elem)
@@ -109,7 +111,7 @@ func (t *LLType) layout() {
 		}
 		t.align = al
 		t.size = (bytes + al - 1) / al * al
-	case LLPtr:
+	case LLPtrT:
 		t.size, t.align = 8, 8
 	case LLArray:
 		t.Elem.layout()
@@ -154,7 +156,7 @@ func (t *LLType) storeBytes() int {
 	switch t.Kind {
 	case LLInt:
 		return (t.Bits + 7) / 8
-	case LLPtr:
+	case LLPtrT:
 		return 8
 	}
 	return t.Size()
@@ -491,7 +493,7 @@ func (p *llParser) parseType() *LLType {
 	for {
 		switch {
 		case p.acceptP("*"):
-			t = &LLType{Kind: LLPtr, Elem: t}
+			t = &LLType{Kind: LLPtrT, Elem: t}
 		case p.isW("addrspace"):
 			p.fail("addrspace qualified pointer")
 		case p.isP("("):
@@ -1017,7 +1019,7 @@ func (p *llParser) parseInstr() *LLInstr {
 		ins.Ops = []*LLOperand{src}
 	case op == "alloca":
 		ins.Ty2 = p.parseType()
-		ins.Type = &LLType{Kind: LLPtr, Elem: ins.Ty2}
+		ins.Type = &LLType{Kind: LLPtrT, Elem: ins.Ty2}
 		if p.isP(",") && p.pos+1 < len(p.toks) && p.toks[p.pos+1].k == 'w' && p.toks[p.pos+1].s != "align" && p.toks[p.pos+1].s != "addrspace" {
 			p.pos++
 			ins.Ops = []*LLOperand{p.typedValue()}
@@ -1051,7 +1053,7 @@ func (p *llParser) parseInstr() *LLInstr {
 			}
 			p.pos++
 		}
-		ins.Type = &LLType{Kind: LLPtr, Elem: &LLType{Kind: LLInt, Bits: 8}}
+		ins.Type = &LLType{Kind: LLPtrT, Elem: &LLType{Kind: LLInt, Bits: 8}}
 	case op == "select":
 		c := p.typedValue()
 		p.expectP(",")
@@ -1123,7 +1125,7 @@ func (p *llParser) parseInstr() *LLInstr {
 		rt := p.parseType()
 		if rt.Kind == LLFuncT {
 			rt = rt.Ret
-		} else if rt.Kind == LLPtr && rt.Elem.Kind == LLFuncT && p.peek().k != '@' && p.peek().k != '%' {
+		} else if rt.Kind == LLPtrT && rt.Elem.Kind == LLFuncT && p.peek().k != '@' && p.peek().k != '%' {
 			rt = rt.Elem.Ret
 		}
 		ins.Type = rt
@@ -1353,7 +1355,7 @@ func (mod *LLModule) extractMaps(names map[string][]string) error {
 			fn = nil
 			nu, nt := 0, 0
 			for _, f := range st.Fields {
-				if f.Kind == LLPtr && f.Elem.Kind == LLArray && f.Elem.Elem.Kind == LLInt && f.Elem.Elem.Bits == 32 {
+				if f.Kind == LLPtrT && f.Elem.Kind == LLArray && f.Elem.Elem.Kind == LLInt && f.Elem.Elem.Bits == 32 {
 					fn = append(fn, []string{"type", "max_entries", "map_flags", "?"}[min(nu, 3)])
 					nu++
 				} else {
@@ -1364,7 +1366,7 @@ func (mod *LLModule) extractMaps(names map[string][]string) error {
 		}
 		d := &LLMapDef{Name: gn}
 		for i, f := range st.Fields {
-			if f.Kind != LLPtr {
+			if f.Kind != LLPtrT {
 				return fmt.Errorf("llir: map %s: field %d (%s) is not a pointer", gn, i, fn[i])
 			}
 			uintVal := func() (int, error) {
